@@ -1,9 +1,11 @@
 #!/bin/bash
 # usage: tools/run_equiv.sh <dir with patch.diff> [checks...]  - applies a behaviour-preserving change to a scratch copy of
 # /repo HEAD, runs the 149 tests and the quick tier of the given checks (default: all 18); every check must stay silent.
+# VERIF_SNAPSHOT=<dir>: run the checks from that copy of /verif (so that edits in /verif during a long batch do not mix in).
 set -u
 src=$(cd "$1" && pwd); shift
 checks=${*:-C01 C02 C03 C04 C05 C06 C07 C08 C09 C10 C11 C12 C13 C14 C15 C16 C17 C18}
+verif=${VERIF_SNAPSHOT:-/verif}
 d=/dev/shm/equiv-$$; rm -rf $d; mkdir -p $d
 git -C /repo archive HEAD | tar -x -C $d
 (cd $d && patch -p1 -s < $src/patch.diff) || { echo "patch does not apply"; rm -rf $d; exit 2; }
@@ -11,7 +13,7 @@ t=$(cd $d && PYTHONPATH=$d /venv/bin/python -m pytest -q -p no:cacheprovider tes
 echo "tests: $t"
 bad=0
 for c in $checks; do
-  out=$(cd /verif && TFMON_REPO=$d TFMON_EVIDENCE_DIR=$d/ev TFMON_OUT_DIR=$d/out ./check $c --tier ${TIER:-quick} 2>&1); rc=$?
+  out=$(cd $verif && TFMON_REPO=$d TFMON_EVIDENCE_DIR=$d/ev TFMON_OUT_DIR=$d/out ./check $c --tier ${TIER:-quick} 2>&1); rc=$?
   if [ $rc -ne 0 ]; then bad=1; echo "ALARM $c rc=$rc $(echo "$out" | grep -E 'kind=|INCONCLUSIVE' | cut -c1-400 | head -3)"; mkdir -p $src/alarms; cp -r $d/out/replays/$c-* $src/alarms/ 2>/dev/null; fi
 done
 [ $bad -eq 0 ] && echo "silent on: $checks"
